@@ -1,6 +1,6 @@
 (* C13 model, part 5: s-expression codecs and the entry point run_C13. *)
 From Coq Require Import List Ascii String Bool Arith ZArith.
-From Verif Require Import Lib.Sexp Model.C13_strings Model.C13_google Model.C13_google_spec Model.C13_sphinx.
+From Verif Require Import Lib.Sexp Model.C13_strings Model.C13_google Model.C13_google_spec Model.C13_sphinx Model.C13_numpy.
 Import ListNotations.
 Open Scope string_scope.
 Open Scope list_scope.
@@ -147,6 +147,19 @@ Definition run_str (name : string) (args : list sexp) : sexp :=
             of_opt (fun p : str * option str => SList [enc_str (fst p); enc_ostr (snd p)]) (re_admonition s) else
           if String.eqb name "re_nad" then
             (let '(n, t, d) := re_name_annotation_description s in SList [enc_ostr n; enc_ostr t; enc_str d]) else
+          if String.eqb name "is_dash_line" then of_bool (is_dash_line s) else
+          if String.eqb name "re_parameter" then
+            match re_parameter s with
+            | ReNo => SList []
+            | ReFuel => SStr "fuel"
+            | ReYes (n, ch, ty) => SList [SList [enc_str n; enc_ostr ch; enc_ostr ty]]
+            end else
+          if String.eqb name "re_returns" then
+            of_opt (fun p : option str * option str => SList [enc_ostr (fst p); enc_ostr (snd p)]) (re_returns s) else
+          if String.eqb name "find_default" then of_opt enc_pair (find_default s) else
+          if String.eqb name "split_cs" then SList (map enc_str (split_cs false s)) else
+          if String.eqb name "dedent" then enc_str (join_nl (dedent (split_nl s))) else
+          if String.eqb name "n_adm_kind" then enc_str (n_adm_kind s) else
           if String.eqb name "unnamed" then
             match get_nad false [s] with
             | Some (n, t, d) => SList [enc_ostr n; enc_ostr t; enc_str d]
@@ -187,6 +200,11 @@ Definition run_C13 (s : sexp) : sexp :=
       match dec_ctx c, as_list_of dec_wsec secs with
       | Some c', Some secs' => of_bool (wf_secs c' secs')
       | _, _ => bad_input
+      end
+  | SList [SStr "nparse"; SList [tr; sk]; c; ls] =>
+      match as_bool tr, as_bool sk, dec_ctx c, dec_strs ls with
+      | Some tr', Some sk', Some c', Some ls' => enc_presult (parse_numpy (mkNOpts tr' sk') c' ls')
+      | _, _, _, _ => bad_input
       end
   | SList [SStr "sparse"; c; ra; ls] =>
       match dec_ctx c, as_bool ra, dec_strs ls with
